@@ -86,10 +86,12 @@ CHECKS = {
         note=TB + " The dispatch arms that insert into_response / into_empty for `: custom(..)` interfaces are exercised on four compiled configurations (custom msg / query on or off) through the generated execute, sudo and query entry points (stream L2-custom-contracts), not proved."),
     "C20": dict(
         text="Machine-checked proof on the model of Remote: encoding is the single-member object {addr}, independent of the type index and of owned/borrowed; decode(encode r) "
-             "gives the same address under any type index; schema name constant. Tie: real to_json_string/from_json/schema_for! for six type parameters (concrete, generic, "
+             "gives the same address under any type index; schema name constant. Remote's constructors, as_ref, its hand-written JsonSchema::schema_name and the attribute lists of the "
+             "struct (derives, serde attributes per field, functions of the JsonSchema impl) are regenerated from sylvia/src/types.rs on every run and the shape the derive-decoder "
+             "model assumes is proved about them (HandlesFn.remote_shape, schema_name_const, json_schema_impl_fns). Tie: real to_json_string/from_json/schema_for! for six type parameters (concrete, generic, "
              "dyn Interface with associated types, unsized) x owned/borrowed x address strings with escapes and non-ASCII, vs the model's literal JSON.",
         design="§8 C20",
-        technique="Lean 4 proof (definitional + derive-decoder model) + L3 differential over type parameters",
+        technique="Lean 4 proof (definitional + derive-decoder model; code and attribute tables regenerated from source by a function translator) + L3 differential over type parameters",
         note=TB + " JSON string escaping of the model printer is validated by the stream, not proved."),
     "C07": dict(
         text="Machine-checked proofs over the model of the reply table and of dispatch_reply: every entry the macro's fold can build holds mutually compatible outcomes "
@@ -163,11 +165,13 @@ CHECKS = {
         text="Machine-checked proofs on the model of the remote helpers: the executor's message carries exactly the handle's address, the attached funds and the encoding "
              "of the message the like-named constructor builds, and that document, fed to the target's entry point, runs exactly the like-named handler with the same argument "
              "values (corollary of C02.dispatch_exact through C05Gen's parts theorem); likewise the querier; the instantiate builder's defaults, last-writer-wins and "
-             "commutation of distinct setters, build2 = build + salt; admin helpers name the handle's address. Tie: for every exec/query method of every compiled generated "
+             "commutation of distinct setters, build2 = build + salt; admin helpers name the handle's address. The instantiate builder, Remote and ExecutorBuilder (both type states) "
+             "are regenerated from sylvia/src as Lean definitions on every run and the builder / executor / admin clauses are proved about that regenerated code "
+             "(C10B.*, HandlesFn.executor_msg for every sequence of with_funds calls, HandlesFn.admin_helpers). Tie: for every exec/query method of every compiled generated "
              "contract, Remote::executor / BoundQuerier (handle typed by the contract and by dyn Interface) build the message, which is then fed to the real entry point "
              "(echo handlers; recording mock querier for queries); random setter sequences on the real InstantiateBuilder; model vs real vs python expected output.",
         design="§8 C10",
-        technique="Lean 4 proof (corollary of the dispatch refinement + record algebra) + L2 differential through the real helpers and entry points",
+        technique="Lean 4 proof (corollary of the dispatch refinement + record algebra, runtime-library code regenerated from source by a function translator) + L2 differential through the real helpers and entry points",
         note=TB + " cosmwasm_std's WasmMsg/QueryRequest encoding and the chain's delivery of the message are outside the model (the harness delivers the body itself)."),
     "C12": dict(
         text="Machine-checked refinement proof: for every well-formed program, every starting chain and every history of proxy calls (store, instantiate with any setter "
